@@ -267,6 +267,15 @@ def cases(tier):
     for kind in ("sampled", "range"):
         for dt in ("uint8", "int8", "int16", "uint16"):
             yield {"k": "mtag-int", "kind": kind, "dtype": dt}
+    for kind in ("sampled", "range"):
+        for dt in ("int16", "int32", "uint16", "int8"):
+            for tagunit, dimunit in (("ms", "us"), ("s", "ms")):
+                if dt == "int8" and False:
+                    continue
+                yield {"k": "mtag-int-units", "kind": kind, "dtype": dt, "tagunit": tagunit, "dimunit": dimunit}
+    for n in (300, 1100) + ((3000,) if tier == "thorough" else ()):
+        for rep in (1, 2):
+            yield {"k": "longticks", "n": n, "rep": rep}
     for kind in ("sampled", "range", "set"):
         yield {"k": "feat", "kind": kind}
     for iv in (0.1, 0.3, 0.7, 1e-3):
@@ -513,6 +522,71 @@ def run_mtag_int(case, r):
         s.close()
 
 
+def run_mtag_int_units(case, r):
+    """narrow integer positions/extents given in a LARGER unit than the dimension's (ms on a us axis, s on a ms axis):
+    the converted position exceeds the element type's range although the stored numbers are small"""
+    dt, kind = case["dtype"], case["kind"]
+    n = 60
+    step = 1000                      # dimension unit: 1/1000 of the tag unit
+    # samples half a step away from the whole multiples: no region border coincides with a sample (the unit factors are
+    # inexact floats, see ASSUMPTIONS)
+    c = [Fr(i * step + 500) for i in range(n)]
+    s = S(r)
+    try:
+        data = np.arange(float(n)) + 1
+        da = s.b.create_data_array("d", "t", data=data)
+        if kind == "sampled":
+            da.append_sampled_dimension(float(step), unit=case["dimunit"], offset=500.0)
+        else:
+            da.append_range_dimension([float(x) for x in c], unit=case["dimunit"])
+        rows = [(40, 5), (10, 20), (33, 0), (50, 9), (1, 58)]          # in tag units; x1000 in dimension units
+        pa = s.b.create_data_array("pos", "t", data=np.array([p for p, _e in rows], dtype=dt))
+        xa = s.b.create_data_array("ext", "t", data=np.array([e for _p, e in rows], dtype=dt))
+        mt = s.b.create_multi_tag("mt", "t", pa)
+        mt.extents = xa
+        mt.units = [case["tagunit"]]
+        mt.references.append(da)
+        for i, (p, e) in enumerate(rows):
+            P, E_ = Fr(p * 1000), Fr(e * 1000)
+            for rn, rule in RULES:
+                sel = [select(c, P, E_, rn)]
+                st, got = observe(lambda: mt.tagged_data(i, 0, rule))
+                judge(r, "C08|mtag-int-units|%s|%s|%s|row%d" % (kind, dt, rn, i),
+                      "multi-tag with %s positions in %s on a %s axis, row %d: position %d extent %d (%s)" % (dt, case["tagunit"], case["dimunit"], i, p, e, rn),
+                      data, sel, contained(c, P, E_), st, got)
+    finally:
+        s.close()
+
+
+def run_longticks(case, r):
+    """range dimensions with more than 1024 ticks; regions that start and end exactly on ticks, between ticks, at the ends"""
+    n, rep = case["n"], case["rep"]
+    c = [Fr(i // rep, 2) for i in range(n)]
+    s = S(r)
+    try:
+        data = np.arange(float(n)) + 1
+        da = s.b.create_data_array("d", "t", data=data)
+        da.append_range_dimension([float(x) for x in c])
+        tag = s.b.create_tag("tag", "t", [0.0])
+        tag.references.append(da)
+        marks = [m_ for m_ in (0, 2, 100, 254, 256, 1022, 1024, n - 12) if 0 <= m_ < n]
+        regs = []
+        for i in marks:
+            j = min(n - 1, i + 10)
+            regs += [(c[i], c[j] - c[i]), (c[i], None), (c[i] + Fr(1, 8), c[j] - c[i]), (c[i], c[j] - c[i] + Fr(1, 8))]
+        for p, e in regs:
+            tag.position = [float(p)]
+            tag.extent = None if e is None else [float(e)]
+            for rn, rule in RULES:
+                sel = [select(c, p, e, rn)]
+                st, got = observe(lambda: tag.tagged_data(0, rule))
+                judge(r, "C08|tag|range-%d-ticks%s|%s|%s" % (n, "-repeated" if rep > 1 else "", "point" if not e else "region", rn),
+                      "%d ticks, region [%r, +%r] (%s)" % (n, float(p), None if e is None else float(e), rn),
+                      data, sel, contained(c, p, e), st, got)
+    finally:
+        s.close()
+
+
 def run_feat(case, r):
     kind = case["kind"]
     n = 5
@@ -715,6 +789,6 @@ def run_multiref(case, r):
 
 def run_case(case):
     r = R()
-    {"closeticks": run_closeticks, "mtag-int": run_mtag_int, "units-mixed": run_units_mixed, "tag": run_tag, "units": run_units, "mtag": run_mtag, "feat": run_feat, "nondyadic": run_nondyadic,
+    {"mtag-int-units": run_mtag_int_units, "longticks": run_longticks, "closeticks": run_closeticks, "mtag-int": run_mtag_int, "units-mixed": run_units_mixed, "tag": run_tag, "units": run_units, "mtag": run_mtag, "feat": run_feat, "nondyadic": run_nondyadic,
      "multiref": run_multiref}[case["k"]](case, r)
     return r
